@@ -3,7 +3,7 @@ from .. import parsing
 from ..common import chunks, generic_replay, pool_map
 
 RULE = ('byte strings: every string up to length L over a 15-letter alphabet with one representative per byte class '
-        '(quick L=4, thorough L=5), plus random streams over all 256 values with P(status) in {0.1,0.3,0.6}; distinct by '
+        '(quick L=4, thorough L=5), plus random streams over all 256 values with P(status) in {0.1,0.3,0.6}, plus streams that leave 1025..20000 messages pending; distinct by '
         'content; non-trivial = contains at least one status byte (everything else is parsed to nothing)')
 
 
@@ -35,6 +35,13 @@ def run(ck):
         seqs.append(parsing.random_stream(ck.rng, ck.rng.choice([50, rlen]), [0.1, 0.3, 0.6][i % 3]))
     for _ in range(2000 if ck.tier == 'quick' else 20000):
         seqs.append(parsing.message_stream(ck.rng, ck.rng.randint(1, 12)))
+    # streams that leave far more than a thousand messages pending at once (nothing may be dropped)
+    for n in ([1025, 1500, 3000] if ck.tier == 'quick' else [1023, 1024, 1025, 2048, 4097, 20000]):
+        seqs.append([0xf8] * n)
+        seqs.append([ck.rng.choice(parsing.DEFINED_RT) for _ in range(n)])
+        seqs.append([0x90, 1, 2] * n)
+        seqs.append([0xf0, 0xf8, 0xf7, 0xf6] * n)
+    ck.hist['streams_with_more_than_1024_messages'] = 12 if ck.tier == 'quick' else 24
     res = [r for part in pool_map(_chunk, list(chunks(seqs, 4000))) for r in part]
     reqs = []
     for s, (line, fail) in zip(seqs, res):
